@@ -396,11 +396,17 @@ impl ProcfsHandle {
             // ENOMEM, EINTR, ...) says nothing about the target, and falling
             // back to an O_NOFOLLOW open would hand out a handle to the
             // magic-link itself, rather than to its target, for O_PATH opens.
-            return match err.kind() {
+            match err.kind() {
                 ErrorKind::OsError(Some(libc::EINVAL)) | ErrorKind::OsError(Some(libc::ENOENT)) => {
-                    self.open(base, subpath, oflags).map(File::from)
+                    return self.open(base, subpath, oflags).map(File::from)
                 }
-                _ => Err(err),
+                // A magic-link whose target cannot be printed because its
+                // path is longer than PATH_MAX (the file was moved deep into
+                // a tree after it was opened) is still a symlink, and
+                // following it still works: carry on. If the name was too
+                // long for some other reason, the lookups below say so.
+                ErrorKind::OsError(Some(libc::ENAMETOOLONG)) => (),
+                _ => return Err(err),
             };
         }
 
